@@ -688,6 +688,15 @@ fn gen_c07(cfg: &Cfg, r: &mut Rng, ops: &mut Vec<String>) {
             }
         }
     }
+    // scale: request lines at and beyond 4 KiB (MPD's default input buffer) and 64 KiB, accepted and
+    // hostile, followed by a further accepted argument (a rejected call must leave nothing behind)
+    for n in [1000usize, 4000, 4080, 4090, 4096, 4100, 9000, 70000] {
+        let long = "a".repeat(n);
+        ops.push(format!("cmd.seq {} s{} s{}", hex(b"add"), hex(long.as_bytes()), hex(b"y z")));
+        ops.push(format!("cmd.seq {} s{} s{} s{}", hex(b"add"), hex(b"x"), hex(format!("{long}\nclearerror").as_bytes()), hex(b"y")));
+        ops.push(format!("cmd.seq {} s{} s{} s{}", hex(b"add"), hex(format!("{long} b").as_bytes()), hex(format!("c\0{long}").as_bytes()), hex(b"y")));
+        ops.push(format!("cmd.raw {} {} {} {}", hex(b"add"), hex(b"x"), hex(format!("{long}\nkill").as_bytes()), hex(b"y")));
+    }
     // every single byte as a raw rendering
     for b in 0..=255u8 {
         ops.push(format!("cmd.raw {} {} {}", hex(b"add"), hex(&[b]), hex(b"z")));
